@@ -73,6 +73,10 @@ int main(int argc, char **argv){
     if (how == 1) src = alias; else if (how == 2) src.copyGrid(alias); else src.copyGrid(alias, 0, outs);
     unchanged(observe(src, probe), before, "grid assigned / copied onto itself (self-copy)");
   }
+  if (how == 3 && !(b == 0 && e == outs)){ // copyGrid of a grid onto itself with an output range: the grid becomes its own restriction
+    TasmanianSparseGrid twin(src); TasmanianSparseGrid &alias = twin; twin.copyGrid(alias, b, e);
+    compare(observe(twin, probe), observe(src, probe), b, e, "grid copied onto itself with an output range (self-copy)");
+  }
   TasmanianSparseGrid assigned;
   TasmanianSparseGrid *copy = nullptr; std::unique_ptr<TasmanianSparseGrid> holder;
   if (how == 0){ holder.reset(new TasmanianSparseGrid(src)); copy = holder.get(); }
